@@ -181,6 +181,8 @@ def validate_item(raw):
     if ty == 'def' and 'attributes' in raw and not (isinstance(raw['attributes'], list) and all(isinstance(a, str) for a in raw['attributes'])):
         raise CaseInvalid('attributes')
     if ty in ('def.ind', 'def.pred'):
+        if not raw['rules']:
+            raise CaseInvalid('no rules')
         for r in raw['rules']:
             if not (isinstance(r, dict) and isinstance(r.get('prop'), (str, list))):
                 raise CaseInvalid('rule')
@@ -191,6 +193,8 @@ def validate_item(raw):
     if ty in ('type.ax', 'type.ind') and not all(isinstance(a, str) for a in raw['args']):
         raise CaseInvalid('args')
     if ty == 'type.ind':
+        if not raw['constrs']:
+            raise CaseInvalid('no constructors')
         for c in raw['constrs']:
             if not (isinstance(c, dict) and isinstance(c.get('name'), str) and isinstance(c.get('type'), str)
                     and isinstance(c.get('args'), list) and all(isinstance(a, str) for a in c['args'])):
@@ -306,25 +310,26 @@ def check_item(case, pre_thy, pre_sig, H):
         check_eq_fields(item, ty, case, H)
         return done('accepted', n_thm >= 1)
 
+    fails = []     # (form, kind, detail)
+
     def compare(form, item2, how):
         if item2.error is not None:
-            H.violation('roundtrip-%s:%s:reparse-error:%s' % (form, ty, _errname(item2.error)), case,
-                        '%s: %s' % (how, str(item2.error)[:300]))
+            fails.append((form, 'reparse-error:%s' % _errname(item2.error), '%s: %s' % (how, str(item2.error)[:300])))
             return
         diff = L.diff_items(item, item2)
         try:
             eq = bool(item == item2)
         except Exception as e:
-            H.violation('roundtrip-%s:%s:eq-raises:%s' % (form, ty, _errname(e)), case, '%s: %r' % (how, e))
+            fails.append((form, 'eq-raises:%s' % _errname(e), '%s: %r' % (how, e)))
             return
         if diff:
-            H.violation('roundtrip-%s:%s:differs:%s' % (form, ty, diff[0]), case,
-                        '%s: fields %s differ (item.__eq__ says %s): %r vs %r' % (
-                            how, diff, 'equal' if eq else 'different', _show(getattr(item, diff[0], None)),
-                            _show(getattr(item2, diff[0], None))))
+            fails.append((form, 'differs:%s' % diff[0],
+                          '%s: fields %s differ (item.__eq__ says %s): %r vs %r' % (
+                              how, diff, 'equal' if eq else 'different', _show(getattr(item, diff[0], None)),
+                              _show(getattr(item2, diff[0], None)))))
         elif not eq:
-            H.violation('roundtrip-%s:%s:eq-says-different' % (form, ty), case,
-                        '%s: all fields agree (terms up to alpha) but item.__eq__ returns False' % how)
+            fails.append((form, 'eq-says-different',
+                          '%s: all fields agree (terms up to alpha) but item.__eq__ returns False' % how))
 
     def copy_proof(item2):
         if ty == 'thm':   # as server.monitor.check_theory does
@@ -379,20 +384,30 @@ def check_item(case, pre_thy, pre_sig, H):
             copy_proof(item2)
             compare('edit', item2, how)
 
-    # ASCII edit form must at least re-parse
+    # one defect of the shared printer shows in both forms: report it once
+    kinds = {}
+    for form, kind, detail in fails:
+        kinds.setdefault(kind, {}).setdefault(form, detail)
+    for kind, forms in kinds.items():
+        form = '+'.join(sorted(forms))
+        H.violation('roundtrip-%s:%s:%s' % (form, ty, kind), case, ' || '.join(forms[f] for f in sorted(forms)))
+
+    # ASCII edit form must at least re-parse (skipped when the unicode edit form already fails to re-parse)
     def display_ascii():
         with global_setting(unicode=False, highlight=False, line_length=None):
             return item.get_display()
-    st, disp = _run(post, display_ascii)
-    if st == 'raised':
-        H.violation('reparse-ascii:%s:display-raises:%s' % (ty, _errname(disp)), case, repr(disp))
-    elif st == 'ok' and ty != 'type.ind':
-        st, item2 = _run(fresh_pre(), items.parse_edit, copy.deepcopy(disp))
+    edit_failed = any(form == 'edit' and kind.startswith('reparse-error') for form, kind, _ in fails)
+    if ty != 'type.ind' and not edit_failed:
+        st, disp = _run(post, display_ascii)
         if st == 'raised':
-            H.violation('reparse-ascii:%s:parse-raises:%s' % (ty, _errname(item2)), case, '%r on %r' % (item2, disp))
-        elif st == 'ok' and item2.error is not None:
-            H.violation('reparse-ascii:%s:%s' % (ty, _errname(item2.error)), case,
-                        'ASCII edit form does not re-parse: %s on %r' % (str(item2.error)[:300], disp))
+            H.violation('reparse-ascii:%s:display-raises:%s' % (ty, _errname(disp)), case, repr(disp))
+        elif st == 'ok':
+            st, item2 = _run(fresh_pre(), items.parse_edit, copy.deepcopy(disp))
+            if st == 'raised':
+                H.violation('reparse-ascii:%s:parse-raises:%s' % (ty, _errname(item2)), case, '%r on %r' % (item2, disp))
+            elif st == 'ok' and item2.error is not None:
+                H.violation('reparse-ascii:%s:%s' % (ty, _errname(item2.error)), case,
+                            'ASCII edit form does not re-parse: %s on %r' % (str(item2.error)[:300], disp))
 
     check_eq_fields(item, ty, case, H)
     done('accepted', n_thm >= 1)
